@@ -105,6 +105,23 @@ def import_closure(mod):
 DECL = re.compile(r'^\s*(?:private\s+|protected\s+)?(?:theorem|lemma)\s+([^\s:({\[]+)', re.M)
 
 
+def qualified_theorems(src):
+    """fully qualified names of the theorems declared in `src` (comment-free), following `namespace X` / `end X` nesting"""
+    stack, names = [], []
+    for line in src.splitlines():
+        m = re.match(r'^\s*namespace\s+(\S+)', line)
+        if m:
+            stack.append(m.group(1))
+            continue
+        m = re.match(r'^\s*end\s+(\S+)\s*$', line)
+        if m and stack and stack[-1] == m.group(1):
+            stack.pop()
+            continue
+        for t in DECL.findall(line):
+            names.append('.'.join(stack + [t]))
+    return names
+
+
 def audit(props_module):
     """Source audit + `#print axioms` of every theorem stated in the property module.
     Returns dict(ok, problems, axioms{thm: [..]}, obligations, theorems[list])"""
@@ -117,10 +134,7 @@ def audit(props_module):
             problems.append(f'{m}: forbidden token {hit.group(0).strip()!r}')
         obligations += len(DECL.findall(src))
     src = strip_comments(open(module_path(props_module)).read())
-    ns = re.findall(r'^\s*namespace\s+(\S+)', src, re.M)
-    thms = DECL.findall(src)
-    prefix = (ns[0] + '.') if ns else ''
-    names = [prefix + t for t in thms]
+    names = qualified_theorems(src)
     axioms = {}
     if names:
         d = os.path.join(LEAN, '.lake', 'audit')
